@@ -113,8 +113,10 @@ impl Geom {
 pub struct ShapeSpec {
     pub ty: i32,
     pub parts: Vec<Part>,
-    /// constructor variant: 0 = `new` when one part else `with_parts/with_rings`; 1 = always the
-    /// plural constructor; 2 = polygon rings through `PolygonRing::from(vec)`, multipoint through `From<Vec>`
+    /// constructor variant, modulo 3: 0 = `new` when one part else `with_parts/with_rings`; 1 = always the
+    /// plural constructor; 2 = polygon rings through `PolygonRing::from(vec)`, multipoint through `From<Vec>`;
+    /// divided by 3: 0 = the constructed value itself, 1 = its `Clone::clone()`, 2 = another shape of
+    /// the type (far away) overwritten with `Clone::clone_from(&constructed)`
     #[serde(default)]
     pub ctor: u8,
 }
@@ -162,15 +164,36 @@ fn pts<P: Pt>(p: &Part) -> Vec<P> {
     p.pts.iter().map(P::from_v).collect()
 }
 
+/// The value as the caller may well hold it: the original, a clone, or a buffer refilled by `clone_from`.
+fn held<T: Clone>(mode: u8, built: T, other: impl FnOnce() -> T) -> T {
+    match mode {
+        1 => built.clone(),
+        2 => {
+            let mut o = other();
+            o.clone_from(&built);
+            o
+        }
+        _ => built,
+    }
+}
+
+const FAR: [V; 4] = [
+    [0x412E_8480_0000_0000, 0x412E_8480_0000_0000, 0x40F8_6A00_0000_0000, 0x40F8_6A00_0000_0000],
+    [0x412E_8490_0000_0000, 0x412E_8480_0000_0000, 0x40F8_6A00_0000_0000, 0x40F8_6A00_0000_0000],
+    [0x412E_8490_0000_0000, 0x412E_8490_0000_0000, 0x40F8_6A10_0000_0000, 0x40F8_6A10_0000_0000],
+    [0x412E_8480_0000_0000, 0x412E_8480_0000_0000, 0x40F8_6A00_0000_0000, 0x40F8_6A00_0000_0000],
+];
+
 fn build_polyline<P>(s: &ShapeSpec) -> GenericPolyline<P>
 where
     P: Pt + record::traits::ShrinkablePoint + record::traits::GrowablePoint,
 {
-    if s.parts.len() == 1 && s.ctor == 0 {
+    let built = if s.parts.len() == 1 && s.ctor % 3 == 0 {
         GenericPolyline::<P>::new(pts(&s.parts[0]))
     } else {
         GenericPolyline::<P>::with_parts(s.parts.iter().map(pts::<P>).collect())
-    }
+    };
+    held(s.ctor / 3, built, || GenericPolyline::<P>::new(FAR[..2].iter().map(P::from_v).collect()))
 }
 
 fn build_polygon<P>(s: &ShapeSpec) -> GenericPolygon<P>
@@ -178,7 +201,7 @@ where
     P: Pt + record::traits::ShrinkablePoint + record::traits::GrowablePoint + record::traits::HasXY + PartialEq,
 {
     let ring = |p: &Part| -> PolygonRing<P> {
-        if s.ctor == 2 {
+        if s.ctor % 3 == 2 {
             PolygonRing::from(pts::<P>(p))
         } else if p.kind == 1 {
             PolygonRing::Inner(pts(p))
@@ -186,11 +209,12 @@ where
             PolygonRing::Outer(pts(p))
         }
     };
-    if s.parts.len() == 1 && s.ctor == 0 {
+    let built = if s.parts.len() == 1 && s.ctor % 3 == 0 {
         GenericPolygon::<P>::new(ring(&s.parts[0]))
     } else {
         GenericPolygon::<P>::with_rings(s.parts.iter().map(ring).collect())
-    }
+    };
+    held(s.ctor / 3, built, || GenericPolygon::<P>::new(PolygonRing::Outer(FAR.iter().map(P::from_v).collect())))
 }
 
 fn build_multipoint<P>(s: &ShapeSpec) -> GenericMultipoint<P>
@@ -198,11 +222,8 @@ where
     P: Pt + record::traits::ShrinkablePoint + record::traits::GrowablePoint,
 {
     let all: Vec<P> = s.parts.iter().flat_map(|p| p.pts.iter().map(P::from_v)).collect();
-    if s.ctor == 2 {
-        GenericMultipoint::<P>::from(all)
-    } else {
-        GenericMultipoint::<P>::new(all)
-    }
+    let built = if s.ctor % 3 == 2 { GenericMultipoint::<P>::from(all) } else { GenericMultipoint::<P>::new(all) };
+    held(s.ctor / 3, built, || GenericMultipoint::<P>::new(FAR[..3].iter().map(P::from_v).collect()))
 }
 
 fn build_multipatch(s: &ShapeSpec) -> Multipatch {
@@ -217,11 +238,8 @@ fn build_multipatch(s: &ShapeSpec) -> Multipatch {
             _ => Patch::Ring(v),
         }
     };
-    if s.parts.len() == 1 && s.ctor == 0 {
-        Multipatch::new(patch(&s.parts[0]))
-    } else {
-        Multipatch::with_parts(s.parts.iter().map(patch).collect())
-    }
+    let built = if s.parts.len() == 1 && s.ctor % 3 == 0 { Multipatch::new(patch(&s.parts[0])) } else { Multipatch::with_parts(s.parts.iter().map(patch).collect()) };
+    held(s.ctor / 3, built, || Multipatch::new(Patch::TriangleStrip(FAR[..3].iter().map(PointZ::from_v).collect())))
 }
 
 /// Does the spec respect the constructors' preconditions (so that `build` cannot panic by contract)?
